@@ -327,8 +327,8 @@ def rule_typo(c: Ctx) -> RuleResult:
                         continue
                     recv = t.value
                     ok, why = _text_guard(c, f, n, recv, cfg, res)
-                    if ok and f.module.rel.endswith("replacements.py"):
-                        ok2 = _autolink_guard(f, n, cfg, res, c, recv)
+                    if ok:
+                        ok2 = _autolink_guard_any(c, f, n, recv, cfg, res)
                         if not ok2:
                             ok, why = False, "the store is not dominated by the autolink counter being zero: the visible text of an autolink would be rewritten"
                     r.add(key, c.where(f, n), f.short, U(n)[:70], "discharged" if ok else "violation",
@@ -362,8 +362,7 @@ def rule_typo(c: Ctx) -> RuleResult:
                     continue
                 r.add(f"{f.short}|del|{alpha(f, n)[:50]}", c.where(f, n), f.short, U(n)[:70], "violation", "a typographic rule deletes from a structure")
         # autolink bookkeeping cannot be bypassed
-        if f.module.rel.endswith("replacements.py"):
-            _bookkeeping(c, r, f)
+        _bookkeeping(c, r, f)
     # replaceAt body
     ra = c.p.func("rules_core/smartquotes.py:replaceAt")
     s_, i_, ch_ = [a.arg for a in ra.node.args.args[:3]]
@@ -833,6 +832,41 @@ def _autolink_guard(f: Func, n: ast.AST, cfg: CFG, res: dict, c: Ctx | None = No
     return True
 
 
+def _autolink_guard_any(c: Ctx, f: Func, n: ast.AST, recv: ast.AST, cfg: CFG, res: dict, depth: int = 0) -> bool:
+    """The store `recv.content = ...` at n cannot hit the text of an autolink: it is dominated by the autolink counter being zero
+    (directly, or in the generator that yields the token); or recv is the token of a stack record (`tokens[item["token"]]`) and
+    every append to a bookkeeping list of the function happens under that fact (a token is recorded only while it is the
+    current, eligible one); or recv is a helper's parameter and the token passed at every call site satisfies this."""
+    if _autolink_guard(f, n, cfg, res, c, recv):
+        return True
+    counters = _autolink_counters(f)
+    e = recv
+    if isinstance(e, ast.Name):
+        ds = [n_.value for n_ in own_nodes(f.node) if isinstance(n_, ast.Assign) and any(isinstance(t, ast.Name) and t.id == e.id for t in n_.targets)]
+        if len(ds) == 1:
+            e = ds[0]
+    if counters and isinstance(e, ast.Subscript) and not isinstance(e.slice, ast.Slice) and (
+            isinstance(e.slice, ast.Attribute) or (isinstance(e.slice, ast.Subscript) and isinstance(e.slice.slice, ast.Constant))):
+        sc = c.tf.scope(f)
+        apps = [x for x in own_nodes(f.node) if isinstance(x, ast.Call) and isinstance(x.func, ast.Attribute) and x.func.attr == "append"
+                and isinstance(x.func.value, ast.Name) and x.args and isinstance(x.args[0], (ast.Dict, ast.Call, ast.Tuple))
+                and not (isinstance(sc.type(x.func.value), tuple) and sc.type(x.func.value)[1:] == ("Token",))]
+        if apps and all(all((z := res.get(cn.id)) is None or any(t in counters and (p is False) for (t, p) in z.preds) for cn in cfg.owner(a)) for a in apps):
+            return True
+    if isinstance(recv, ast.Name) and recv.id in [a.arg for a in f.node.args.args + f.node.args.kwonlyargs] and depth < 3:
+        sites = c.cg.callers.get(f, [])
+        if sites and all(cs.kind in ("direct", "method") for cs in sites):
+            for cs in sites:
+                a = c.eff.arg_for_param(cs, f, recv.id)
+                if a is None:
+                    return False
+                ccfg, cres = c.facts(cs.caller)
+                if not _autolink_guard_any(c, cs.caller, cs.node, a, ccfg, cres, depth + 1):
+                    return False
+            return True
+    return False
+
+
 def _bookkeeping(c: Ctx, r: RuleResult, f: Func) -> None:
     """In a loop over tokens that maintains an autolink counter: for a token of kind link_open (resp. link_close) every path
     through the loop body evaluates the guard of the corresponding counter update - no `continue` taken for such a token
@@ -843,9 +877,12 @@ def _bookkeeping(c: Ctx, r: RuleResult, f: Func) -> None:
     counters = _autolink_counters(f)
     for loop in [n for n in own_nodes(f.node) if isinstance(n, ast.For)]:
         ups = [s for s in ast.walk(loop) if isinstance(s, (ast.Assign, ast.AugAssign)) and (i_ := incr_of(s)) is not None and i_[0] in counters]
-        if not ups or not isinstance(loop.target, ast.Name):
+        tgt = loop.target
+        if isinstance(tgt, ast.Tuple) and len(tgt.elts) == 2 and isinstance(loop.iter, ast.Call) and U(loop.iter.func) == "enumerate":
+            tgt = tgt.elts[1]          # for i, token in enumerate(tokens)
+        if not ups or not isinstance(tgt, ast.Name):
             continue
-        tok = loop.target.id
+        tok = tgt.id
         head = next((x for x in cfg.nodes if x.kind == "for" and x.ast is loop), None)
         if head is None:
             continue
